@@ -180,7 +180,12 @@ pub async fn run_acb_app_to_render_model(
 
     let mut all_deltas = Vec::<TxDelta>::new();
     let mut sec_render_tables = HashMap::new();
-    for (sec, deltas_res) in deltas_results_by_sec {
+    // Visit the securities in name order (not in the map's arbitrary order):
+    // the order of all_deltas is the order of the notes under the cost tables.
+    let mut sorted_delta_results: Vec<(Security, DeltaListResult)> =
+        deltas_results_by_sec.into_iter().collect();
+    sorted_delta_results.sort_by(|a, b| a.0.cmp(&b.0));
+    for (sec, deltas_res) in sorted_delta_results {
         let deltas = deltas_res.deltas_or_partial_deltas();
         let mut deltas_copy = deltas.iter().cloned().collect();
         all_deltas.append(&mut deltas_copy);
